@@ -800,6 +800,17 @@ func (e *c15Env) step(c *verifmc.Check, slot int, ms []*c15Member, check bool, c
 		}
 	}
 	shape := fmt.Sprintf("chain%d[%s]", slot+1, strings.Join(c15Classes(sorted), "<"))
+	if len(sorted) > 6 {
+		cnt := map[string]int{}
+		var odd []string
+		for j, m := range sorted {
+			cnt[m.Class]++
+			if m.Class != "t" && m.Class != "d" {
+				odd = append(odd, fmt.Sprintf("%s@%d", m.Class, j))
+			}
+		}
+		shape = fmt.Sprintf("chain%d[%d members in hash order: t×%d d×%d %s]", slot+1, len(sorted), cnt["t"], cnt["d"], strings.Join(odd, " "))
+	}
 	describe := func(keys []string) string {
 		cnt := map[string]int{}
 		for _, k := range keys {
